@@ -117,16 +117,22 @@ pub fn check_opt(case: &Case08, ctx: &mut Ctx) -> Verdict {
 
 /// shapes that trigger each shortcut: leading literal / class / ^, X*Y with related or unrelated first sets, counted repeats
 fn trigger_strategy() -> BoxedStrategy<Node> {
-    let lit = prop::sample::select(vec!['a', 'b', 'A', '1', '\n', 'c']).prop_map(Node::Lit);
+    // letters from different regions of the code space: the first-set comparison gives up after 100 characters, so
+    // what happens for characters beyond that point ('x', 'é', '𐐀') differs from what happens for 'a'
+    let lit = prop::sample::select(vec!['a', 'b', 'A', '1', '\n', 'c', 'x', 'z', 'é', '𐐀']).prop_map(Node::Lit);
     let cls = prop::sample::select(vec![
         ClassExpr { neg: false, items: vec![Item::Char('a'), Item::Char('b')], sub: None },
         ClassExpr { neg: false, items: vec![Item::Range('a', 'c')], sub: None },
         ClassExpr { neg: true, items: vec![Item::Char('a')], sub: None },
         ClassExpr { neg: false, items: vec![Item::Esc(Esc { kind: EscKind::Digit, neg: false })], sub: None },
         ClassExpr { neg: false, items: vec![Item::Esc(Esc { kind: EscKind::Space, neg: false }), Item::Char('a')], sub: None },
+        ClassExpr { neg: true, items: vec![Item::Char('x')], sub: None },
+        ClassExpr { neg: false, items: vec![Item::Range('u', 'z')], sub: None },
+        ClassExpr { neg: false, items: vec![Item::Esc(Esc { kind: EscKind::Cat("L".into()), neg: false })], sub: None },
+        ClassExpr { neg: true, items: vec![Item::Esc(Esc { kind: EscKind::Digit, neg: false })], sub: None },
     ])
     .prop_map(Node::Class);
-    let atom = prop_oneof![4 => lit.clone(), 2 => cls.clone(), 1 => Just(Node::Dot), 1 => Just(Node::Esc(Esc{kind: EscKind::Space, neg:false})), 1 => Just(Node::Esc(Esc{kind: EscKind::Digit, neg:false}))];
+    let atom = prop_oneof![4 => lit.clone(), 2 => cls.clone(), 1 => Just(Node::Dot), 1 => Just(Node::Esc(Esc{kind: EscKind::Space, neg:false})), 1 => Just(Node::Esc(Esc{kind: EscKind::Space, neg:true})), 1 => Just(Node::Esc(Esc{kind: EscKind::Digit, neg:false})), 1 => Just(Node::Esc(Esc{kind: EscKind::Digit, neg:true})), 1 => Just(Node::Esc(Esc{kind: EscKind::Word, neg:false}))];
     let quant = gen::quant_strategy(true, 3);
     let x = prop_oneof![
         3 => atom.clone(),
@@ -158,7 +164,7 @@ impl Prop for C08 {
         let s1 = (trigger_strategy(), gen::flags_strategy("ims"), gen::raw_inputs(8, 8), rep.clone())
             .prop_map(|(node, flags, inputs, rep)| Case08 { ast: AstCase { node, flags, inputs: Inputs::Raw(inputs) }, rep })
             .boxed();
-        let cfg = GenCfg::basic(&['a', 'b', 'A', '1', '\n']);
+        let cfg = GenCfg::basic(&['a', 'b', 'A', '1', '\n', 'x', 'é']);
         let s2 = (gen::node_strategy(&cfg), gen::flags_strategy("ims"), gen::raw_inputs(8, 8), rep)
             .prop_map(|(node, flags, inputs, rep)| Case08 { ast: AstCase { node, flags, inputs: Inputs::Raw(inputs) }, rep })
             .boxed();
